@@ -16,6 +16,10 @@ static LIVE_BLOCKS: AtomicUsize = AtomicUsize::new(0);
 static LIVE_BYTES: AtomicUsize = AtomicUsize::new(0);
 static OVERFLOW: AtomicBool = AtomicBool::new(false);
 static TOTAL_ALLOCS: AtomicUsize = AtomicUsize::new(0);
+// journal of slots written since the last reset (so that reset() touches only those)
+const JN: usize = 512;
+static JOURNAL: [AtomicUsize; JN] = [const { AtomicUsize::new(0) }; JN];
+static JLEN: AtomicUsize = AtomicUsize::new(0);
 const TOMB: usize = 1;
 
 #[inline]
@@ -30,6 +34,12 @@ fn insert(p: usize, size: usize) {
         if k == 0 || k == TOMB {
             KEYS[i].store(p, Relaxed);
             SIZES[i].store(size, Relaxed);
+            if k == 0 {
+                let j = JLEN.fetch_add(1, Relaxed);
+                if j < JN {
+                    JOURNAL[j].store(i, Relaxed);
+                }
+            }
             LIVE_BLOCKS.fetch_add(1, Relaxed);
             LIVE_BYTES.fetch_add(size, Relaxed);
             return;
@@ -109,9 +119,17 @@ pub fn overflowed() -> bool {
 }
 /// Forget everything (start of a new measurement window).
 pub fn reset() {
-    for i in 0..SLOTS {
-        KEYS[i].store(0, Relaxed);
+    let j = JLEN.load(Relaxed);
+    if j <= JN {
+        for t in 0..j {
+            KEYS[JOURNAL[t].load(Relaxed)].store(0, Relaxed);
+        }
+    } else {
+        for i in 0..SLOTS {
+            KEYS[i].store(0, Relaxed);
+        }
     }
+    JLEN.store(0, Relaxed);
     LIVE_BLOCKS.store(0, Relaxed);
     LIVE_BYTES.store(0, Relaxed);
     OVERFLOW.store(false, Relaxed);
